@@ -1,6 +1,209 @@
-From Coq Require Import List Bool.
-From PV Require Import Base.Exn Model.ValidateSem Gen.Validate.
+(* C13 - @validate binds by name: call style, declaration order, return_as mode and sources are interchangeable.
+
+   Property theorems about the configuration regenerated from fn_deco_validate.py on every run (Gen/Validate.v),
+   for every value universe, every signature WITHOUT a var-positional parameter (any number of parameters,
+   keyword-only parameters, **kwargs, defaults, with / without self), every list of Parameters with validator
+   chains of any length, strict on / off, sync / async.
+
+   `final_equiv f f'`: both runs reach the body and it observes the same value under every name, or neither
+   reaches the body.  Which exception leaves may depend on the order of arrival (the first rejection wins, C12).
+
+   Guards: self_guard (the name `self` arrives only as the implicit first positional argument and is no Parameter
+   name - outside it: C13_self_by_keyword_refuted) and gate_guard / names_fit (every name that reaches the
+   function is one of its parameters, or it takes **kwargs ...; outside it _as_args falls back to arrival
+   order: C13_call_style_outside_signature_refuted, the region of known finding C12-K1).
+   Functions with *args keep arrival order on purpose (repository test
+   test_return_as_args_advanced_different_order); the property text excludes them and so does the model.   *)
+From Coq Require Import List Arith Bool Permutation.
+From PV Require Import Base.Exn Model.ValidateSem Spec.ValidateSpec Proofs.ValidateDict Proofs.ValidateRef
+  Proofs.ValidateBind Proofs.ValidateGate Proofs.ValidateByName Gen.Validate.
 Import ListNotations.
-Theorem C13_cfg_is_reference : Gen.Validate.cfg = reference_cfg.
-Proof. reflexivity. Qed.
+
+Definition vrun {value : Type} (is_none : value -> bool) :=
+  run value is_none Gen.Validate.cfg Gen.Validate.is_required_rule.
+
+Theorem C13_cfg_is_reference :
+  Gen.Validate.cfg = reference_cfg /\ Gen.Validate.is_required_rule = reference_req_rule.
+Proof. split; reflexivity. Qed.
 Print Assumptions C13_cfg_is_reference.
+
+Lemma vrun_ref : forall value is_none, @vrun value is_none = run value is_none reference_cfg reference_req_rule.
+Proof. intros. unfold vrun. destruct C13_cfg_is_reference as [-> ->]. reflexivity. Qed.
+
+(* CALL STYLE.  named_assignment c = which name is given which value (keywords, and positionals under the names
+   of the parameters they bind to).  Two calls Python accepts with the same named assignment - any split into a
+   positional prefix and keywords, the keywords in any order - end the same way. *)
+Theorem C13_call_style_invariant : forall value is_none sg env dc is_async c c',
+  d_ignore_input dc = false ->
+  List.length (c_args c) <= List.length (pos_params value sg) ->
+  List.length (c_args c') <= List.length (pos_params value sg) ->
+  Permutation (named_assignment value sg c) (named_assignment value sg c') ->
+  NoDup (keys (named_assignment value sg c)) ->
+  self_guard value sg dc c = true -> self_guard value sg dc c' = true ->
+  gate_guard value sg dc c = true -> gate_guard value sg dc c' = true ->
+  final_equiv value (snd (vrun is_none sg env dc is_async c)) (snd (vrun is_none sg env dc is_async c')).
+Proof. intros value is_none. rewrite vrun_ref. apply call_style_invariant'. Qed.
+Print Assumptions C13_call_style_invariant.
+
+(* DECLARATION ORDER.  Any permutation of the Parameter list (names pairwise distinct) *)
+Theorem C13_declaration_order_invariant : forall value is_none sg env dc dc' is_async c,
+  same_but_params value dc dc' -> NoDup (map (@p_name value) (d_params dc)) ->
+  self_guard value sg dc c = true -> self_guard value sg dc' c = true ->
+  gate_guard value sg dc c = true -> gate_guard value sg dc' c = true ->
+  final_equiv value (snd (vrun is_none sg env dc is_async c)) (snd (vrun is_none sg env dc' is_async c)).
+Proof. intros value is_none. rewrite vrun_ref. apply declaration_order_invariant. Qed.
+Print Assumptions C13_declaration_order_invariant.
+
+(* RETURN_AS.  ARGS and KWARGS_WITH_NONE end identically (same binding in the same order, same exception) ... *)
+Theorem C13_return_as_invariant : forall value is_none sg env dc is_async c,
+  self_guard value sg dc c = true -> names_fit value sg dc c = true ->
+  snd (vrun is_none sg env (with_mode value dc ARGS) is_async c) =
+  snd (vrun is_none sg env (with_mode value dc KWARGS_WITH_NONE) is_async c).
+Proof. intros value is_none. rewrite vrun_ref. apply args_equals_kwargs. Qed.
+Print Assumptions C13_return_as_invariant.
+
+(* ... and KWARGS_WITHOUT_NONE differs from them exactly by omitting None values, so that signature defaults
+   apply: same exception if _wrapper_content raised; same values under all names whose value is not None; the
+   signature default where the value is None; Python's TypeError if such a parameter has no default *)
+Theorem C13_return_as_without_none : forall value is_none sg env dc is_async c,
+  self_guard value sg dc c = true -> names_fit value sg dc c = true ->
+  without_none_relation value is_none sg
+    (snd (vrun is_none sg env (with_mode value dc KWARGS_WITH_NONE) is_async c))
+    (snd (vrun is_none sg env (with_mode value dc KWARGS_WITHOUT_NONE) is_async c)).
+Proof. intros value is_none. rewrite vrun_ref. apply kwargs_without_none. Qed.
+Print Assumptions C13_return_as_without_none.
+
+(* EXTERNAL SOURCES.  If the caller passes a value for a declared name, the external source of that name is never
+   consulted: replacing it by any other source (absent, present, raising) changes nothing, journal included ... *)
+Theorem C13_external_only_when_absent : forall value is_none sg env dc n e is_async c w,
+  caller_gives value sg dc c n w -> declared value dc n = true ->
+  vrun is_none sg env (replace_ext value dc n e) is_async c = vrun is_none sg env dc is_async c.
+Proof. intros value is_none. rewrite vrun_ref. intros. eapply external_unused_when_supplied; eassumption. Qed.
+Print Assumptions C13_external_only_when_absent.
+
+(* ... and if the caller passes none, the body sees the chain output of the external value *)
+Theorem C13_external_supplies_when_absent : forall value is_none sg env dc is_async c j b p w v,
+  self_guard value sg dc c = true -> gate_guard value sg dc c = true ->
+  NoDup (map (@p_name value) (d_params dc)) ->
+  vrun is_none sg env dc is_async c = (j, FBody b) ->
+  In p (d_params dc) -> (forall w', ~ caller_gives value sg dc c (p_name p) w') ->
+  external_gives value p w -> spec_param value is_none p w = VPass v ->
+  (d_mode dc <> KWARGS_WITHOUT_NONE \/ is_none v = false) ->
+  dget (p_name p) b = Some v.
+Proof. intros value is_none. rewrite vrun_ref. apply external_supplies_when_absent. Qed.
+Print Assumptions C13_external_supplies_when_absent.
+
+(* ignore_input=True: the caller's input is ignored *)
+Theorem C13_ignore_input : forall value is_none sg env dc is_async c,
+  d_ignore_input dc = true ->
+  vrun is_none sg env dc is_async c = vrun is_none sg env dc is_async (Build_call value [] []).
+Proof. intros value is_none. rewrite vrun_ref. apply ignore_input_ignores. Qed.
+Print Assumptions C13_ignore_input.
+
+(* ---- witnesses over a small universe: values are numbers, 0 plays None ---- *)
+Definition nnone (v : nat) : bool := Nat.eqb v 0.
+Definition at_most (k : nat) : vfun nat := fun v => if Nat.leb v k then Ok v else Raise ValidatorExceptionC.
+Definition plus_one : vfun nat := fun v => Ok (S v).
+Definition to_none : vfun nat := fun _ => Ok 0.
+Definition mkparam (n : name) (chain : list (vfun nat)) (required : bool) (default : option nat) (x : option (ext nat)) : param nat :=
+  {| p_name := n; p_convert := None; p_chain := chain; p_required := required; p_default := default;
+     p_exc := ParameterExceptionC; p_ext := x; p_flask_json := false |}.
+Definition mksig (ps : list (name * option nat)) (varkw : bool) : signature nat :=
+  {| s_params := map (fun nd => {| sp_name := fst nd; sp_kwonly := false; sp_default := snd nd |}) ps; s_varkw := varkw |}.
+Definition no_env : wenv := {| w_flask_installed := false; w_request := None |}.
+
+(* outside the guards the statements are false on the current source *)
+(* (a) def f(b=5, a=0), Parameter a, strict=False, ARGS: f(a=1, c=2) and f(c=2, a=1) bind differently *)
+Theorem C13_call_style_outside_signature_refuted : exists sg env dc is_async c c',
+  d_ignore_input dc = false /\ Permutation (named_assignment nat sg c) (named_assignment nat sg c') /\
+  NoDup (keys (named_assignment nat sg c)) /\
+  self_guard nat sg dc c = true /\ self_guard nat sg dc c' = true /\ gate_guard nat sg dc c = false /\
+  ~ final_equiv nat (snd (vrun nnone sg env dc is_async c)) (snd (vrun nnone sg env dc is_async c')).
+Proof.
+  exists (mksig [(2, Some 5); (1, Some 0)] false), no_env,
+    {| d_params := [mkparam 1 [] true None None]; d_mode := ARGS; d_strict := false; d_ignore_input := false |},
+    false, {| c_args := []; c_kwargs := [(1, 1); (3, 2)] |}, {| c_args := []; c_kwargs := [(3, 2); (1, 1)] |}.
+  repeat split.
+  - apply perm_swap.
+  - repeat constructor; cbn; intuition discriminate.
+  - intro H. specialize (H 1). vm_compute in H. discriminate H.
+Qed.
+Print Assumptions C13_call_style_outside_signature_refuted.
+
+(* (b) the name self by keyword: def f(self, a), Parameter a, strict: f(x, a=1) runs, f(self=x, a=1) raises *)
+Theorem C13_self_by_keyword_refuted : exists sg env dc is_async c c',
+  Permutation (named_assignment nat sg c) (named_assignment nat sg c') /\ self_guard nat sg dc c' = false /\
+  gate_guard nat sg dc c = true /\ gate_guard nat sg dc c' = true /\
+  ~ final_equiv nat (snd (vrun nnone sg env dc is_async c)) (snd (vrun nnone sg env dc is_async c')).
+Proof.
+  exists (mksig [(0, None); (1, None)] false), no_env,
+    {| d_params := [mkparam 1 [] true None None]; d_mode := KWARGS_WITH_NONE; d_strict := true; d_ignore_input := false |},
+    false, {| c_args := [7]; c_kwargs := [(1, 1)] |}, {| c_args := []; c_kwargs := [(0, 7); (1, 1)] |}.
+  repeat split.
+  - apply perm_swap.
+  - intro H. vm_compute in H. exact H.
+Qed.
+Print Assumptions C13_self_by_keyword_refuted.
+
+(* ---- non-vacuity: def f(a, b, c=9), Parameters declared as (c, a, b) ---- *)
+Definition ex_sig := mksig [(1, None); (2, None); (3, Some 9)] false.
+Definition pa := mkparam 1 [at_most 5; plus_one] true None None.
+Definition pb := mkparam 2 [plus_one] true None None.
+Definition pc := mkparam 3 [] false (Some 4) None.
+Definition ex_deco (ps : list (param nat)) (m : return_as) : deco nat :=
+  {| d_params := ps; d_mode := m; d_strict := true; d_ignore_input := false |}.
+
+Example C13_call_style_hypotheses_satisfiable :
+  let dc := ex_deco [pc; pa; pb] ARGS in
+  let c1 := {| c_args := [3; 4; 6]; c_kwargs := [] |} in
+  let c2 := {| c_args := [3]; c_kwargs := [(3, 6); (2, 4)] |} in
+  let c3 := {| c_args := []; c_kwargs := [(2, 4); (3, 6); (1, 3)] |} in
+  Permutation (named_assignment nat ex_sig c1) (named_assignment nat ex_sig c2) /\
+  Permutation (named_assignment nat ex_sig c1) (named_assignment nat ex_sig c3) /\
+  NoDup (keys (named_assignment nat ex_sig c1)) /\
+  self_guard nat ex_sig dc c2 = true /\ gate_guard nat ex_sig dc c2 = true /\
+  self_guard nat ex_sig dc c3 = true /\ gate_guard nat ex_sig dc c3 = true /\
+  snd (vrun nnone ex_sig no_env dc false c1) = FBody [(1, 4); (2, 5); (3, 6)] /\
+  snd (vrun nnone ex_sig no_env dc false c2) = FBody [(1, 4); (2, 5); (3, 6)] /\
+  snd (vrun nnone ex_sig no_env dc false c3) = FBody [(1, 4); (2, 5); (3, 6)].
+Proof.
+  cbv zeta. repeat split.
+  - apply (Permutation_cons_app [(3, 6); (2, 4)] []). apply perm_swap.
+  - apply (Permutation_cons_app [(2, 4); (3, 6)] []). apply Permutation_refl.
+  - repeat constructor; cbn; intuition discriminate.
+Qed.
+
+Example C13_declaration_order_hypotheses_satisfiable :
+  same_but_params nat (ex_deco [pc; pa; pb] ARGS) (ex_deco [pb; pc; pa] ARGS) /\
+  NoDup (map (@p_name nat) (d_params (ex_deco [pc; pa; pb] ARGS))) /\
+  snd (vrun nnone ex_sig no_env (ex_deco [pb; pc; pa] ARGS) false {| c_args := [3]; c_kwargs := [(2, 4)] |})
+  = FBody [(1, 4); (2, 5); (3, 4)].
+Proof.
+  repeat split.
+  - cbn. apply (Permutation_cons_app [pb] [pa]). apply (Permutation_cons_app [pb] []). apply Permutation_refl.
+  - repeat constructor; cbn; intuition discriminate.
+Qed.
+
+(* a validator that returns None: KWARGS_WITHOUT_NONE lets the signature default of c apply *)
+Example C13_return_as_hypotheses_satisfiable :
+  let dc := ex_deco [pa; pb; mkparam 3 [to_none] false None None] ARGS in
+  let c := {| c_args := [3; 4; 6]; c_kwargs := [] |} in
+  self_guard nat ex_sig dc c = true /\ names_fit nat ex_sig dc c = true /\
+  snd (vrun nnone ex_sig no_env (with_mode nat dc ARGS) false c) = FBody [(1, 4); (2, 5); (3, 0)] /\
+  snd (vrun nnone ex_sig no_env (with_mode nat dc KWARGS_WITHOUT_NONE) false c) = FBody [(1, 4); (2, 5); (3, 9)].
+Proof. repeat split. Qed.
+
+Example C13_external_hypotheses_satisfiable :
+  let x := Some {| e_has := true; e_load := Ok 2 |} in
+  let dc := ex_deco [pa; mkparam 2 [plus_one] true None x; pc] KWARGS_WITH_NONE in
+  (* the caller passes b: the source is not consulted *)
+  snd (vrun nnone ex_sig no_env dc false {| c_args := [3; 4]; c_kwargs := [] |}) = FBody [(1, 4); (2, 5); (3, 4)] /\
+  caller_gives nat ex_sig dc {| c_args := [3; 4]; c_kwargs := [] |} 2 4 /\
+  (* the caller does not: the body sees plus_one 2 *)
+  snd (vrun nnone ex_sig no_env dc false {| c_args := [3]; c_kwargs := [] |}) = FBody [(1, 4); (2, 3); (3, 4)] /\
+  external_gives nat (mkparam 2 [plus_one] true None x) 2.
+Proof.
+  cbv zeta. repeat split.
+  - right. now left.
+  - eexists. repeat split.
+Qed.
